@@ -37,6 +37,8 @@ std::string Verdict::signature() const { return cls + "@" + op_kind; }
 // ---- coverage across runs -----------------------------------------------------------------------
 static std::unordered_set<uint64_t> g_states, g_triples;
 static long g_c12[12][5][6];
+static std::unordered_set<uint64_t> g_fit_triples;  // (c <= 48, position mod c, instruction length) seen in fitting mode
+long coverage_fit_triples() { return (long)g_fit_triples.size(); }
 long coverage_states() { return (long)g_states.size(); }
 long coverage_triples() { return (long)g_triples.size(); }
 void coverage_note(uint64_t s, uint64_t t) {
@@ -636,6 +638,9 @@ static void exec_asm(Run &R, TaskRt &T, int ti, int oi, const Op &op) {
   }
   // success: update the model
   if (a.mode == M_FIT) {
+    if (a.c <= 48)
+      for (const Seg &sg : k.segs)
+        if (!sg.pad) g_fit_triples.insert((uint64_t)a.c << 32 | (uint64_t)(sg.start % a.c) << 8 | (uint64_t)sg.len);
     R.st.bump("fit_calls");
     R.st.bump("pads", k.pads);
     R.st.bump("gap_gt11_padded", k.pads_gt11);
